@@ -11,9 +11,15 @@ trap 'git -C /repo worktree remove --force "$W" >/dev/null 2>&1; rm -rf "$W"' EX
 git -C /repo worktree add --detach "$W" HEAD >/dev/null 2>&1 || { echo "worktree failed"; exit 2; }
 DST=$ROOT/seeded/$NAME; mkdir -p "$DST"; cp -r "$SRC"/. "$DST"/
 rundemo() {
-  if ls "$SRC"/*_test.go >/dev/null 2>&1; then
+  if ls "$SRC"/*_test.go >/dev/null 2>&1 && ! grep -q '^package seccomp' "$SRC"/*_test.go; then
+    mkdir -p "$W/zz_seeddemo"; cp "$SRC"/*_test.go "$W/zz_seeddemo/"
+    (cd "$W" && go test -count=1 ./zz_seeddemo/ >/tmp/seedchk.$$.log 2>&1); rc=$?
+    rm -rf "$W/zz_seeddemo"
+  elif ls "$SRC"/*_test.go >/dev/null 2>&1; then
     for f in "$SRC"/*_test.go; do cp "$f" "$W/zz_seed_$(basename "$f")"; done
-    (cd "$W" && go test -count=1 . >/tmp/seedchk.$$.log 2>&1); rc=$?
+    names=$(grep -ho '^func Test[A-Za-z0-9_]*' "$SRC"/*_test.go | sed 's/^func //' | paste -sd'|')
+    tags=""; grep -q "Verif" "$SRC"/*_test.go && tags="-tags verif"
+    (cd "$W" && go test $tags -count=1 -run "^($names)\$" . >/tmp/seedchk.$$.log 2>&1); rc=$?
     rm -f "$W"/zz_seed_*_test.go
   else
     d=$(ls -d "$SRC"/*/ | head -1); mkdir -p "$W/_seeddemo"; cp -r "$d"/. "$W/_seeddemo/"
